@@ -4,6 +4,7 @@ import (
 	"fmt"
 	"go/parser"
 	"go/token"
+	"path/filepath"
 	"regexp"
 	"strconv"
 	"strings"
@@ -282,16 +283,7 @@ func judgeFaulted(t Target, w *World, ref *Result, fw *World, fr *Result, st *St
 	return "", ""
 }
 
-func cleanEq(a, b string) bool {
-	return strings.TrimPrefix(cleanPath(a), "./") == strings.TrimPrefix(cleanPath(b), "./")
-}
-
-func cleanPath(p string) string {
-	for strings.Contains(p, "//") {
-		p = strings.ReplaceAll(p, "//", "/")
-	}
-	return strings.TrimPrefix(p, "./")
-}
+func cleanEq(a, b string) bool { return filepath.Clean(a) == filepath.Clean(b) }
 
 func isInput(w *World, p string) bool {
 	for _, f := range w.Files {
